@@ -17,6 +17,8 @@ for name in sorted(os.listdir(SEEDED)):
     if only and name not in only:
         continue
     d = os.path.join(SEEDED, name)
+    if not os.path.isdir(d):
+        continue
     mp = os.path.join(d, "meta.json")
     meta = json.load(open(mp))
     prop = meta.get("property", name.split("-")[0])
